@@ -42,7 +42,22 @@ def stat_second(x):
     return float(np.sort(np.asarray(x))[min(1, len(x) - 1)])
 
 
+def stat_first(x):  # positional access: the documented argument is the segment's values (an ndarray)
+    return float(x[0])
+
+
+def stat_last(x):
+    return float(x[-1])
+
+
+def stat_method_std(x):  # ndarray.std has ddof=0 (a pandas object would use ddof=1)
+    return float(x.std())
+
+
 CALLABLES = {
+    "first": stat_first,
+    "last": stat_last,
+    "method_std": stat_method_std,
     "np.mean": np.mean,
     "np.median": np.median,
     "np.max": np.max,
@@ -205,7 +220,7 @@ def detector_params(draw, det, p, max_msl=5, max_bw=6, allow_cov=True):
         lo = draw(st.one_of(st.sampled_from([-1.0, 0.0, -0.5]), st.floats(-5, 5, allow_nan=False)))
         hi = lo + draw(st.one_of(st.sampled_from([0.0, 1.0, 2.0]), st.floats(0, 6, allow_nan=False)))
         return {"change_detector": dict(cls=inner, **ip),
-                "stat": {"callable": draw(st.sampled_from(["np.mean", "np.median", "np.max", "range"]))},
+                "stat": {"callable": draw(st.sampled_from(["np.mean", "np.median", "np.max", "range", "first", "last", "method_std"]))},
                 "stat_lower": lo, "stat_upper": hi}, n_min
     raise ValueError(det)
 
